@@ -991,6 +991,16 @@ func (v *v41) checkFalseRetry(s *slot41) {
 	if s.res.Status == nfsv4.NFS4_OK && (s.cache || nres == 0) {
 		vs = append(vs, variant{"more-ops", append(append([]nfsv4.NfsArgop4(nil), s.ops...), &nfsv4.NfsArgop4_OP_PUTROOTFH{})})
 	}
+	if alt, ok := v.otherArguments(s); ok && s.cache && v.rng.IntN(3) == 0 {
+		// Same operation types, other arguments: not a retransmission
+		// either, although its shape matches the cached reply.
+		req := v.request(s, s.seq, s.cache, s.op.kind, alt)
+		if !bytes.Equal(req, s.req) {
+			v.sit("false-retry-41-same-shape-other-arguments")
+			v.differentRequestCheck(s, req)
+			return
+		}
+	}
 	if len(vs) == 0 {
 		return
 	}
@@ -1077,7 +1087,7 @@ func (v *v41) inflight(op *op41, s *slot41, req []byte, label string, cache bool
 		v.abort = true
 		return nil
 	}
-	nd := 1 + v.rng.IntN(3)
+	nd := 2 + v.rng.IntN(3) // at least two parked duplicates
 	dups := make([]*pending, nd)
 	for i := range dups {
 		v.requests++
@@ -1087,6 +1097,7 @@ func (v *v41) inflight(op *op41, s *slot41, req []byte, label string, cache bool
 	v.logf("%s held at %s gate; %d concurrent retransmissions (parked=%v)", label, op.gate, nd, parked)
 	if parked {
 		v.sit("inflight-dup-41")
+		v.sit("inflight-two-or-more-waiters-41")
 		if !cache {
 			v.sit("inflight-dup-41-uncached")
 		}
@@ -1647,5 +1658,94 @@ func (v *v41) destroySession(c *client41) {
 	}
 	if via != nil && mode == "from-other-session" && v.rng.IntN(2) == 0 {
 		v.checkReplay(via, "now")
+	}
+}
+
+// otherArguments returns the operation list of the slot's last request
+// with the arguments of one operation changed (other file, name, offset,
+// state ID, share access); operation types and count stay the same.
+func (v *v41) otherArguments(s *slot41) ([]nfsv4.NfsArgop4, bool) {
+	if !s.present || len(s.ops) == 0 {
+		return nil, false
+	}
+	ops := decodeArgs(s.req).Argarray[1:] // private copy
+	for i := len(ops) - 1; i >= 0; i-- {
+		switch o := ops[i].(type) {
+		case *nfsv4.NfsArgop4_OP_OPEN:
+			if c, is := o.Opopen.Claim.(*nfsv4.OpenClaim4_CLAIM_NULL); is {
+				if c.File == "f0" {
+					c.File = "f1"
+				} else {
+					c.File = "f0"
+				}
+			} else {
+				o.Opopen.ShareAccess = o.Opopen.ShareAccess%3 + 1
+			}
+			return ops, true
+		case *nfsv4.NfsArgop4_OP_LOCK:
+			o.Oplock.Offset += 64
+			return ops, true
+		case *nfsv4.NfsArgop4_OP_LOCKU:
+			o.Oplocku.Offset += 64
+			return ops, true
+		case *nfsv4.NfsArgop4_OP_WRITE:
+			o.Opwrite.Offset += 1
+			return ops, true
+		case *nfsv4.NfsArgop4_OP_READ:
+			o.Opread.Offset += 1
+			return ops, true
+		case *nfsv4.NfsArgop4_OP_OPEN_DOWNGRADE:
+			o.OpopenDowngrade.ShareAccess = o.OpopenDowngrade.ShareAccess%3 + 1
+			return ops, true
+		case *nfsv4.NfsArgop4_OP_CLOSE:
+			o.Opclose.OpenStateid.Other[0] ^= 0x40
+			return ops, true
+		case *nfsv4.NfsArgop4_OP_FREE_STATEID:
+			o.OpfreeStateid.FsaStateid.Other[0] ^= 0x40
+			return ops, true
+		case *nfsv4.NfsArgop4_OP_LOOKUP:
+			o.Oplookup.Objname = "f0"
+			return ops, true
+		}
+	}
+	return nil, false
+}
+
+// differentRequestCheck: a request on the slot and sequence ID of the
+// slot's last request that is not that request may be refused, but must
+// not be executed nor answered with the cached reply.
+func (v *v41) differentRequestCheck(s *slot41, req []byte) {
+	before := v.fingerprint()
+	if v.abort {
+		return
+	}
+	p, ok := v.send(req, "SAME-SLOT-SEQUENCE-OTHER-ARGUMENTS")
+	if !ok {
+		return
+	}
+	v.dups++
+	after := v.fingerprint()
+	if v.abort {
+		return
+	}
+	s.probed = "same-shape-other-arguments"
+	st := p.res.Status
+	v.logf("  same slot %d and sequence %d as %s, same operation types, other arguments -> %s %v", s.idx, s.seq, s.op.kind, statusName(st), resNames(p.res))
+	v.shape = append(v.shape, "other-arguments:"+statusName(st))
+	if bytes.Equal(p.enc, s.reply) {
+		v.violate(fmt.Sprintf("C19 different-request-answered-with-cached-reply v=4.1 op=%s", s.op.kind),
+			fmt.Sprintf("a request with the slot %d and sequence ID %d of %s and the same operation types but other arguments is not a retransmission; it was answered with the cached reply of that request (%s)", s.idx, s.seq, s.op, statusName(st)),
+			map[string]any{"request": opNames(decodeArgs(req))})
+	} else if st == nfsv4.NFS4_OK {
+		v.violate("C19 false-retry-accepted v=4.1", "a request reusing a slot and sequence ID with other arguments was executed", nil)
+		v.abort = true
+		return
+	}
+	if before != after {
+		v.violate("C19 false-retry-side-effect v=4.1", "a request reusing a slot and sequence ID with other arguments changed observable state",
+			map[string]any{"before": before, "after": after})
+	}
+	if s.present && v.rng.IntN(3) == 0 {
+		v.checkReplay(s, "after-other-arguments")
 	}
 }
